@@ -238,8 +238,7 @@ int sbdf_md_get(char const* name, sbdf_metadata_head const* meta, sbdf_object** 
 	{
 		if (!strcmp(name, t->name))
 		{
-			sbdf_obj_copy(t->value, out);
-			return SBDF_OK;
+			return sbdf_obj_copy(t->value, out);
 		}
 	}
 
@@ -262,7 +261,7 @@ int sbdf_md_get_dflt(char const* name, sbdf_metadata_head const* meta, sbdf_obje
 		{
 			if (t->default_value)
 			{
-				sbdf_obj_copy(t->default_value, default_out);
+				return sbdf_obj_copy(t->default_value, default_out);
 			}
 			else
 			{
